@@ -334,6 +334,12 @@ impl<'a> CompiledPredicate<'a> {
                 self.eval_binary_op(&left_val, op, &right_val)
             }
             Expr::UnaryOp { op, expr } => {
+                // i64::MIN has no positive counterpart: parse the digits together with the sign
+                if let (crate::sql::ast::UnaryOperator::Minus, Expr::Literal(Literal::Integer(s))) =
+                    (op, &**expr)
+                {
+                    return Some(Value::Int(format!("-{}", s).parse().ok()?));
+                }
                 let val = self.eval_value(expr, row)?;
                 self.eval_unary_op(op, &val)
             }
